@@ -619,7 +619,15 @@ pub fn gen_workspace(rng: &mut Rng) -> Workspace {
                 others.extend(shapes[d].iter().cloned());
             }
         }
-        let (text, shape) = gen_module(rng, &others);
+        let (mut text, mut shape) = gen_module(rng, &others);
+        // size knob: some modules are several times larger (longer queries, more salsa events
+        // per query, more places for a change to arrive)
+        for _ in 1..*rng.pick(&[1usize, 1, 1, 2, 3]) {
+            let (t2, s2) = gen_module(rng, &[]);
+            text += &t2;
+            shape.fns.extend(s2.fns);
+            shape.types.extend(s2.types);
+        }
         let dir = if rng.chance(1, 5) { "test" } else { "src" };
         let id = next_id;
         next_id += 1;
